@@ -159,15 +159,19 @@ def main():
     except Exception as e:  # extraction unavailable -> hand-written defaults are used
         extract_status = {"error": "%s: %s" % (type(e).__name__, e)}
 
-    # 2. build
-    targets = list(mod.LEAN_MODULES) + ["Driver." + d for d in getattr(mod, "DRIVERS", [])]
-    ok, build_out = common.lake_build(targets)
+    # 2. build: property theorems (the proof obligations) and, separately, the model drivers (so that the
+    # correspondence can still run and localise the difference when only a proof obligation broke)
+    ok, build_out = common.lake_build(list(mod.LEAN_MODULES))
+    drivers = ["Driver." + d for d in getattr(mod, "DRIVERS", [])]
+    ok_drivers, drv_out = common.lake_build(drivers) if drivers else (True, "")
     proof_broken = None
     if not ok:
         if "timeout" in build_out.lower() and "error:" not in build_out:
             print("infrastructure: lake build timed out")
             return 2
         proof_broken = build_out[-6000:]
+    elif not ok_drivers:
+        proof_broken = "model driver does not build:\n" + drv_out[-4000:]
 
     # 3. audit
     thms, audit_raw, grep_hits = {}, "", []
@@ -198,7 +202,7 @@ def main():
 
     # 4+5. correspondence and monitors
     try:
-        res = mod.run(ctx, model_available=(proof_broken is None or ok))
+        res = mod.run(ctx, model_available=ok_drivers)
     except subprocess.TimeoutExpired:
         print("infrastructure: timeout in correspondence run")
         return 2
